@@ -107,7 +107,12 @@ func fields(v absint.Val) ([]field, bool) {
 type eng struct {
 	p *load.Program
 	s *oblig.Set
+	// what instr() learned about the decoder, for the disassembly rules
+	readers map[int]rd
+	opField *field
 }
+
+type rd struct{ kind, addr field }
 
 func (e *eng) eval(fn *ssa.Function, args []absint.Val) (outs []struct {
 	res   absint.Val
@@ -135,6 +140,7 @@ func Run(p *load.Program, tier string) *oblig.Set {
 	e := &eng{p: p, s: s}
 	e.instr()
 	e.function()
+	e.disasm()
 	return s
 }
 
@@ -207,8 +213,8 @@ func (e *eng) instr() {
 	}
 
 	// readers
-	type rd struct{ kind, addr field }
 	readers := map[int]rd{}
+	e.readers = readers
 	typeT := encFn.Signature.Results().At(0).Type()
 	for k := 0; k < 3; k++ {
 		var r rd
@@ -298,6 +304,7 @@ func (e *eng) instr() {
 				w := width(wf[0].mask)
 				s.OK("E1", key, p.Pos(newFn.Pos()), fmt.Sprintf("New writes %d bits at bit %d, OpCode reads the same bits", w, wf[0].lshift))
 				layout = append(layout, rng{key, int(wf[0].lshift), int(wf[0].lshift) + w - 1})
+				e.opField = &wf[0]
 				e.opcodes(w)
 			} else {
 				s.Bad("E1", key, p.Pos(newFn.Pos()), "New and OpCode disagree on the opcode field: "+absint.Key(outs[0].res))
